@@ -461,6 +461,57 @@ def CRec.getVersion (r : CRec) (flavor : Str) : Option Str :=
   | some i => i.version.get
   | none => none
 
+/-! ## A product directory of the database: the version and chain records of one product
+
+`Database.undeclare`, `unassignTag` and `assignTag` (db/Database.py l.474-518, 630-681, 568-627) as operations on the
+parsed records.  A record whose last flavor goes is removed from the directory (`write()` deletes the file). -/
+
+structure PDir where
+  versions : List (Str × VRec)    -- version name ↦ `<version>.version`
+  chains : List (Str × CRec)      -- tag ↦ `<tag>.chain`, in directory-listing order
+  deriving DecidableEq, Repr
+
+def putC (l : List (Str × CRec)) (tag : Str) (r : CRec) : List (Str × CRec) :=
+  if r.flavors.isEmpty then ddel l tag else dset l tag r
+
+def putV (l : List (Str × VRec)) (version : Str) (r : VRec) : List (Str × VRec) :=
+  if r.flavors.isEmpty then ddel l version else dset l version r
+
+/-- `Database.unassignTag(tag, name, flavor)` -/
+def PDir.unassignTag (d : PDir) (tag flavor : Str) : PDir :=
+  match dget d.chains tag with
+  | none => d
+  | some r =>
+    if (dget r.flavors flavor).isSome then { d with chains := putC d.chains tag (r.removeVersion flavor) } else d
+
+/-- the tags `Database.findTags(name, version, flavor)` reports, in directory-listing order -/
+def PDir.findTags (d : PDir) (version flavor : Str) : List Str :=
+  d.chains.filterMap fun (t, r) => if r.getVersion flavor = some version then some t else none
+
+/-- `Database.undeclare(product)`: the flavor's tags first, then its block of the version file -/
+def PDir.undeclare (d : PDir) (version flavor : Str) : PDir :=
+  match dget d.versions version with
+  | none => d
+  | some vr =>
+    if (dget vr.flavors flavor).isNone then d else
+    let d1 := (d.findTags version flavor).foldl (fun d t => d.unassignTag t flavor) d
+    { d1 with versions := putV d1.versions version { vr with flavors := ddel vr.flavors flavor } }
+
+/-- `Database.assignTag(tag, name, version, flavor)`; nothing happens (ProductNotFound) unless the flavor is declared -/
+def PDir.assignTag (d : PDir) (name tag version flavor who now : Str) : PDir :=
+  match dget d.versions version with
+  | none => d
+  | some vr =>
+    if (dget vr.flavors flavor).isNone then d else
+    let r : CRec := match dget d.chains tag with
+      | some r => r
+      | none => { name := some name, tag := some tag, flavors := [] }
+    { d with chains := dset d.chains tag (r.setVersion flavor version who now) }
+
+/-- the block of flavor `f` in the chain record of `tag` / the version record of `version`, if there is one -/
+def PDir.blockC (d : PDir) (tag f : Str) : Option CInfo := (dget d.chains tag).bind fun r => dget r.flavors f
+def PDir.blockV (d : PDir) (version f : Str) : Option Info := (dget d.versions version).bind fun r => dget r.flavors f
+
 /-! ## Path layer -/
 
 structure Path where
